@@ -143,6 +143,59 @@ def rand_tree(r, d):
     return ('spec', rand_tree(r, d - 1), rand_tree(r, d - 1))
 
 
+def value_chains(res):
+    """what the compiled code COMPUTES for chains of two operators with constant right operands (x op c1 op c2), for every pair
+    of arithmetic operators and both parenthesisations: the value follows the parse tree (left to right), also after constant merging"""
+    from .. import diff
+    ops = ['+', '-', '*', '/', '%']
+    consts = [(1, 2), (3, 3), (10, 4), (0, 1), (7, 5)]
+    lines, exp = [], []
+
+    def ev(op, a, b):
+        if op == '+': return a + b
+        if op == '-': return a - b
+        if op == '*': return a * b
+        if b == 0: return None
+        return a // b if op == '/' else a % b
+    for x in (10, -7, 100):
+        for o1 in ops:
+            for o2 in ops:
+                for c1, c2 in consts:
+                    for shape in ('bare', 'left', 'right'):
+                        nm = f'n{"m" if x < 0 else ""}{abs(x)}'
+                        tight = lambda o: o in '*/%'          # noqa: E731
+                        left_val = (lambda: None if ev(o1, x, c1) is None else ev(o2, ev(o1, x, c1), c2))
+                        right_val = (lambda: None if ev(o2, c1, c2) is None else ev(o1, x, ev(o2, c1, c2)))
+                        if shape == 'bare':
+                            text = f'{nm} {o1} {c1} {o2} {c2}'
+                            val = right_val() if (tight(o2) and not tight(o1)) else left_val()       # same level: left to right
+                        elif shape == 'left':
+                            text = f'({nm} {o1} {c1}) {o2} {c2}'
+                            val = left_val()
+                        else:
+                            text = f'{nm} {o1} ({c1} {o2} {c2})'
+                            val = right_val()
+                        if val is None or abs(val) > 30000:
+                            continue
+                        lines.append(f'write({text}); write(\' \');')
+                        exp.append(str(val))
+    src = 'empty @is_you(int n10, int nm7, int n100) {\n    ' + '\n    '.join(lines) + '\n}\n'
+    run = diff.compile_and_run(src, ['10', '-7', '100'], word=2, max_steps=5_000_000, monitors=False)
+    res['evaluations'] += len(lines)
+    if run.kind != 'ok':
+        runner.fail(res, 'M-EXC', f'value chains: {run.kind}: {run.detail}', {'source': src[:3000]})
+        return
+    got = run.outcome.out.decode('latin-1').split()
+    for i, (g, w) in enumerate(zip(got, exp)):
+        if g != w:
+            runner.fail(res, 'M-TREE', f'`{lines[i][6:-13]}` with n10=10, nm7=-7, n100=100 computes {g}, its tree gives {w}', {'expr': lines[i][6:-13]}, expected=w, observed=g)
+            return
+    if len(got) != len(exp) or run.outcome.klass != 'WIN':
+        runner.fail(res, 'M-TREE', f'value chains: {len(got)} of {len(exp)} values printed, run ends {run.outcome.klass}', {'source': src[:3000]})
+        return
+    runner.count(res, 'chain_values_agree', len(exp))
+
+
 def run_shard(spec):
     try:
         P.parse_prelude()        # a whole program first: statement parsing must leave the expression grammar as it was
@@ -158,6 +211,7 @@ def _run_shard(spec):
     seen = set()
     ops = P.BINOPS
     if spec['kind'] == 'pairs':
+        value_chains(res)
         for o1, o2 in itertools.product(ops, ops):
             for da, db, dc in itertools.product(DECOR, DECOR, DECOR):
                 if sum(x != '' for x in (da, db, dc)) > 1:
